@@ -1,1 +1,80 @@
-// kani harnesses (included from /repo under cfg(kani))
+// C33-O2: estimate_range_len (the pre-allocation guard of range()) equals the exact length of range(start,end,step).
+// Included from /repo/nervusdb-query/src/executor/plan_mid.rs under cfg(kani).
+use super::*;
+
+/// exact number of elements of range(start, end, step), step != 0, over the integers
+fn exact_len(start: i64, end: i64, step: i64) -> u128 {
+    let (s, e, st) = (start as i128, end as i128, step as i128);
+    if st > 0 {
+        if s > e { 0 } else { ((e - s) / st + 1) as u128 }
+    } else if s < e {
+        0
+    } else {
+        ((s - e) / (-st) + 1) as u128
+    }
+}
+
+#[kani::proof]
+#[kani::unwind(4)]
+fn c33_o2_q_range_len_small() {
+    let start: i64 = kani::any();
+    let end: i64 = kani::any();
+    let step: i64 = kani::any();
+    kani::assume(start > -1000 && start < 1000 && end > -1000 && end < 1000);
+    kani::assume(step != 0 && step > -50 && step < 50);
+    let n = estimate_range_len(start, end, step);
+    kani::cover!(n > 3, "witness: non-trivial range reachable");
+    kani::cover!(n == 0, "witness: empty range reachable");
+    assert!(n as u128 == exact_len(start, end, step), "range: estimated length is the exact length");
+}
+
+#[kani::proof]
+#[kani::unwind(4)]
+fn c33_o2_q_range_len_no_panic_full_range() {
+    let start: i64 = kani::any();
+    let end: i64 = kani::any();
+    let step: i64 = kani::any();
+    kani::assume(step != 0);
+    let n = estimate_range_len(start, end, step);
+    kani::cover!(n > (1usize << 62), "witness: huge estimate reachable");
+    kani::cover!(n == 0, "witness: empty reachable");
+    // never under-estimates when the span fits i64 (so a too-large range is always refused)
+    if step > 0 && start <= end && end.checked_sub(start).is_some() {
+        assert!(n >= 1, "range: non-empty range has length >= 1");
+    }
+}
+
+/// step = +-1 on the full i64 range: the length is span+1 exactly, unless the span overflows i64 (then saturating
+/// subtraction under-estimates: recorded as outside the promise, asserted only where the span fits).
+#[kani::proof]
+#[kani::unwind(4)]
+fn c33_o2_q_range_len_unit_step() {
+    let start: i64 = kani::any();
+    let end: i64 = kani::any();
+    let up: bool = kani::any();
+    let step: i64 = if up { 1 } else { -1 };
+    let n = estimate_range_len(start, end, step);
+    let span = if up { end as i128 - start as i128 } else { start as i128 - end as i128 };
+    kani::cover!(span > (1i128 << 40), "witness: long range reachable");
+    if span >= 0 && span <= i64::MAX as i128 {
+        assert!(n as u128 == span as u128 + 1, "range: unit-step length is span+1");
+    }
+    if span < 0 {
+        assert!(n == 0, "range: wrong-direction range is empty");
+    }
+}
+
+#[kani::proof]
+#[kani::unwind(4)]
+fn c33_o2_t_range_len_span_overflow() {
+    // spans that do not fit i64 (start < 0 < end far apart): saturating_sub clamps the span to i64::MAX,
+    // so the estimate may be too small by a factor <= 2; the guard must still refuse (estimate > any sane limit)
+    let start: i64 = kani::any();
+    let end: i64 = kani::any();
+    let step: i64 = kani::any();
+    kani::assume(step > 0 && step < 1024);
+    kani::assume((end as i128 - start as i128) > i64::MAX as i128);
+    let n = estimate_range_len(start, end, step);
+    kani::cover!(true, "witness: reached");
+    assert!(n as u128 >= (i64::MAX as u128) / 1024, "range: clamped span still yields a huge estimate");
+}
